@@ -38,6 +38,10 @@ EncodingEscalation(c) ==
 
 Verdict(c) ==
   IF c.outcome # "ok" THEN <<"outcome", c.outcome>>
+  \* an output that is invalid under walrus's whole feature set but valid once the proposals walrus does not speak (GC, ...)
+  \* are enabled needs one of those: the input did not
+  ELSE IF (\E s \in Ran(c.sets) : s.removed = <<>> /\ s.inv /\ ~s.outv) /\ c.out_valid_beyond THEN
+       <<"proposal-outside-the-supported-set-introduced", (CHOOSE s \in Ran(c.sets) : s.removed = <<>>).why>>
   \* an output that is invalid even with every proposal enabled is not an escalation (it is C02's violation)
   ELSE IF \E s \in Ran(c.sets) : s.removed = <<>> /\ s.inv /\ ~s.outv THEN <<"ok">>
   ELSE IF Escalations(c) # {} THEN
